@@ -154,7 +154,7 @@ class Run:
                 m = re.match(r"^end\s+(\S+)", line)
                 if m and stack and stack[-1] == m.group(1):
                     stack.pop(); continue
-                m = re.match(r"^(?:private\s+|protected\s+)?theorem\s+([A-Za-z0-9_'.]+)", line)
+                m = re.match(r"^(?:private\s+|protected\s+)?theorem\s+([^\s(:{\[]+)", line)
                 if m:
                     names.append(".".join(stack + [m.group(1)]))
         self.obligations = names
